@@ -28,3 +28,4 @@ OBLIGATIONS += [
         bounds_q="all 7 sequence states, all stub outcomes"),
 ]
 OBLIGATIONS += reuse("C01", r"lz_window_fill")   # flush: read_limit = write_pos, pending replay
+OBLIGATIONS += reuse("C02", r"block_encode_body")   # a completed SYNC_FLUSH leaves the Block open and writes only payload
